@@ -194,6 +194,16 @@ theorem wrap_good (E : Env) {kd : DK ρ} (hk : DSafe E kd) (n : Nat) (i : Instr 
         simp only [applyFn] at he
         repeat (split at he; · simp at he)
         simp at he; rw [← he]; simp
+      have hcg : ∀ e, callGuard E s.depth v = .error e → e ≠ .oob := by
+        intro e he
+        cases v <;> simp [callGuard] at he
+        split at he
+        · simp at he; rw [← he]; simp
+        · simp at he
+      cases hg : callGuard E s.depth v with
+      | error e => exact hcg e hg
+      | ok _ =>
+      simp only []
       cases hv : Den.replaceValue v s.caps d.caps with
       | error e => exact hrv e hv
       | ok cap => exact ⟨hp1, hp2⟩
@@ -210,6 +220,16 @@ theorem wrap_good (E : Env) {kd : DK ρ} (hk : DSafe E kd) (n : Nat) (i : Instr 
         simp only [applyFn] at he
         repeat (split at he; · simp at he)
         simp at he; rw [← he]; simp
+      have hcg : ∀ e, callGuard E s.depth v = .error e → e ≠ .oob := by
+        intro e he
+        cases v <;> simp [callGuard] at he
+        split at he
+        · simp at he; rw [← he]; simp
+        · simp at he
+      cases hg : callGuard E s.depth v with
+      | error e => exact hcg e hg
+      | ok _ =>
+      simp only []
       cases hv : Den.replaceValue v s.caps d.caps with
       | error e => exact hrv e hv
       | ok cap => simp only; split; · exact ⟨hp1, hp2⟩
